@@ -46,6 +46,13 @@ func genC12(r *rand.Rand, tier string, idx int) []string {
 	default:
 		pool = wkeyPool(r, npool)
 	}
+	comb := idx%100 == 11
+	if comb {
+		// the longest export paths: key 0 has a sibling at every nibble depth (wcombPool); all keys live
+		pool = wcombPool(r, 60+r.Intn(4))
+		npool = len(pool)
+		shape = 0
+	}
 	g := &wgen{r: r, pool: pool, live: map[string][]byte{}, commitd: map[string][]byte{}}
 	var nlive int
 	switch shape {
@@ -56,13 +63,16 @@ func genC12(r *rand.Rand, tier string, idx int) []string {
 	default:
 		nlive = 2 + r.Intn(npool-2)
 	}
+	if comb {
+		nlive = npool
+	}
 	for k := 0; k < nlive; k++ {
 		g.upd(k, wgenValue(r, k, false))
 		if r.Intn(8) == 0 {
 			g.commit()
 		}
 	}
-	for k := 0; k < nlive/4; k++ {
+	for k := 0; k < nlive/4 && !comb; k++ {
 		g.mutate()
 	}
 	switch r.Intn(4) {
@@ -88,6 +98,20 @@ func genC12(r *rand.Rand, tier string, idx int) []string {
 		nreq = len(pool)
 	}
 	perm := r.Perm(len(pool))[:nreq]
+	if comb && nreq > 0 {
+		// key 0 (the path with a branch at every depth) and its deepest sibling are always requested
+		full := r.Perm(len(pool))
+		front := []int{0}
+		if nreq > 1 {
+			front = append(front, len(pool)-1)
+		}
+		for _, p := range full {
+			if len(front) < nreq && p != 0 && p != len(pool)-1 {
+				front = append(front, p)
+			}
+		}
+		perm = front
+	}
 	var req []string
 	for _, p := range perm {
 		req = append(req, fmt.Sprintf("%x", pool[p]))
@@ -125,7 +149,7 @@ func genC12(r *rand.Rand, tier string, idx int) []string {
 func init() {
 	register(&Suite{
 		Name:        "c12",
-		Rule:        "source tries of every root shape (branch, shared-prefix short node, single entry, empty) over pools of 4..17 keys, in memory / committed at collapse levels -1..6 / reloaded (+ further changes); path export of 0..14 requested keys (present and absent, both sides of the threshold of 10); import; 6 mirrored updates / same-value rewrites / deletes (both entry points) of requested keys; non-trivial = at least 2 mutations and a successful import",
+		Rule:        "source tries of every root shape (branch, shared-prefix short node, single entry, empty) over pools of 4..17 keys (every 100th case: comb-shaped tries of 62..65 keys in which one requested key has a sibling at every nibble depth — the longest export paths), in memory / committed at collapse levels -1..6 / reloaded (+ further changes); path export of 0..14 requested keys (present and absent, both sides of the threshold of 10); import; 6 mirrored updates / same-value rewrites / deletes (both entry points) of requested keys; non-trivial = at least 2 mutations and a successful import",
 		Gen:         genC12,
 		Run:         runWmpt,
 		CaseTimeout: 3 * time.Minute, // a stalled machine must not look like a hang; a real hang still fails the case
